@@ -8,7 +8,7 @@ Layer A — THEOREMS for the Debian scheme.
   * `eq_imp_hash`     (C12) `==` versions have equal hash keys, on all `Raw`
                             (through `padLex_eq_stripTrail` of `Univers/Basic/PadLexEq.lean`)
   * `construct_wf`          `construct` establishes `WellFormed`
-  * `str_roundtrip_partial`, `str_roundtrip_counterexample` (C11; `1-0-0` prints as `1-0`)
+  * `str_roundtrip`   (C11) `construct (str r) = .ok r` for well-formed `r` (epoch ≤ 4300 digits)
 -/
 import Univers.Scheme.DebSpec
 import Univers.Vers.Spec
@@ -672,13 +672,15 @@ theorem construct_clean {s : List Char} (hs : ∀ c ∈ s, 33 ≤ c.toNat)
 
 /-- the text after the epoch in `str r` -/
 def bodyOf (r : Raw) : List Char :=
-  if r.revision != ['0'] then r.upstream ++ '-' :: r.revision else r.upstream
+  if r.revision != ['0'] || r.upstream.contains '-' then r.upstream ++ '-' :: r.revision
+  else r.upstream
 
 theorem str_eq (r : Raw) :
     str r = if r.epoch != 0 then natDigits r.epoch ++ ':' :: bodyOf r else bodyOf r := by
   simp only [str, bodyOf]
-  by_cases h1 : (r.epoch != 0) = true <;> by_cases h2 : (r.revision != ['0']) = true <;>
-    simp [h1, h2]
+  by_cases h1 : (r.epoch != 0) = true <;>
+    by_cases h2 : (r.revision != ['0'] || r.upstream.contains '-') = true <;>
+    simp only [h1, h2, if_true, if_false, Bool.false_eq_true, List.append_assoc, List.cons_append]
 
 theorem hyphen_allowed : allowedChar '-' = true := by decide
 
@@ -703,21 +705,24 @@ theorem matchBody_bodyOf {r : Raw} (h : WellFormed r = true) : matchBody (bodyOf
       · exact hr.1 x e
   · exact h.1
 
-theorem splitRevision_bodyOf {r : Raw} (h : WellFormed r = true)
-    (hrt : r.revision = ['0'] → '-' ∉ r.upstream) (e : Nat) :
+theorem splitRevision_bodyOf {r : Raw} (h : WellFormed r = true) (e : Nat) :
     splitRevision e (bodyOf r) = ⟨e, r.upstream, r.revision⟩ := by
   have hr := wf_rev h
   simp only [bodyOf, splitRevision]
-  by_cases h0 : r.revision = ['0']
-  · simp only [h0, bne_self_eq_false, Bool.false_eq_true, if_false, rpartition_none (hrt h0)]
-  · have : (r.revision != ['0']) = true := by simpa using h0
-    simp only [this, if_true, rpartition_append r.upstream hr.2]
+  by_cases hp : (r.revision != ['0'] || r.upstream.contains '-') = true
+  · simp only [hp, if_true, rpartition_append r.upstream hr.2]
+  · have h0 : r.revision = ['0'] := by
+      cases hq : decide (r.revision = ['0']) with
+      | true => exact of_decide_eq_true hq
+      | false => exact absurd (by simp [of_decide_eq_false hq]) hp
+    have h1 : '-' ∉ r.upstream := fun hm => hp (by simp [hm])
+    rw [if_neg hp]
+    simp only [rpartition_none h1, h0]
 
-/-- C11 on the values for which it holds: well-formed, an epoch `int()` accepts back, and not
-"revision `0` with a hyphen in upstream" (see `str_roundtrip_counterexample`). -/
-theorem str_roundtrip_partial (r : Raw) (h : WellFormed r = true)
-    (hep : (natDigits r.epoch).length ≤ 4300)
-    (hrt : r.revision = ['0'] → '-' ∉ r.upstream) :
+/-- C11: every well-formed value (what `construct` builds, `construct_wf`) whose epoch
+`int()` accepts back is rebuilt from its `str`. -/
+theorem str_roundtrip (r : Raw) (h : WellFormed r = true)
+    (hep : (natDigits r.epoch).length ≤ 4300) :
     construct (str r) = .ok r := by
   have hb := matchBody_bodyOf h
   have hball := matchBody_all hb
@@ -729,7 +734,7 @@ theorem str_roundtrip_partial (r : Raw) (h : WellFormed r = true)
     simp only [this, Bool.false_eq_true, if_false]
     rw [(construct_clean (fun x hx => by have := allowed_toNat (hball x hx); omega)
       ⟨c, rest, hbc, hc⟩ (by simp [isValid, hb])).2 (partition_none hnocolon)]
-    simp only [splitRevision_bodyOf h hrt, ← he]
+    simp only [splitRevision_bodyOf h, ← he]
   · have : (r.epoch != 0) = true := by simpa using he
     simp only [this, if_true]
     have hd := natDigits_spec r.epoch
@@ -746,7 +751,7 @@ theorem str_roundtrip_partial (r : Raw) (h : WellFormed r = true)
       simp only [hb, Bool.true_or]
     rw [(construct_clean ?_ ⟨d, ds ++ ':' :: bodyOf r, by rw [hds]; rfl, hd.1 d (by rw [hds]; simp)⟩
       hvalid).1 _ _ _ (partition_append _ hdc) (pyInt_natDigits _ hep)]
-    · simp only [splitRevision_bodyOf h hrt]
+    · simp only [splitRevision_bodyOf h]
     · intro x hx
       rcases List.mem_append.mp hx with e | e
       · have := allowed_toNat (digit_allowed (hd.1 x e)); omega
@@ -754,27 +759,13 @@ theorem str_roundtrip_partial (r : Raw) (h : WellFormed r = true)
         · rw [e]; decide
         · have := allowed_toNat (hball x e); omega
 
-/-- the hypotheses of `str_roundtrip_partial` are satisfiable -/
-example : WellFormed w10 = true ∧ (natDigits w10.epoch).length ≤ 4300 ∧
-    (w10.revision = ['0'] → '-' ∉ w10.upstream) := by decide
-
 /-- `DebianVersion("1-0-0").value` = `Version(epoch=0, upstream="1-0", revision="0")` -/
 def w1_0_0 : Raw := ⟨0, ['1', '-', '0'], ['0']⟩
 
-/-- C11 fails for a constructible value: `str(DebianVersion("1-0-0"))` is `"1-0"` (the
-revision `0` is not printed), which parses to upstream `1`, revision `0` — a different and
-strictly SMALLER version. -/
-theorem str_roundtrip_counterexample :
-    construct ['1', '-', '0', '-', '0'] = .ok w1_0_0 ∧ WellFormed w1_0_0 = true ∧
-    str w1_0_0 = ['1', '-', '0'] ∧
-    construct (str w1_0_0) = .ok ⟨0, ['1'], ['0']⟩ ∧
-    vercmp ⟨0, ['1'], ['0']⟩ w1_0_0 = .lt := by
-  refine ⟨rfl, by decide, rfl, rfl, ?_⟩
-  rw [vercmp_eq_key]
-  simp [w1_0_0, key, tokens, keyCmp, lexPair, partCmp, padLex, tokCmp, runCmp, numVal, padTok,
-    rank, rankCmp]
-  decide
-
+/-- the former witness of the C11 defect now prints as `1-0-0` and is rebuilt -/
+example : construct ['1', '-', '0', '-', '0'] = .ok w1_0_0 ∧
+    str w1_0_0 = ['1', '-', '0', '-', '0'] ∧ construct (str w1_0_0) = .ok w1_0_0 :=
+  ⟨rfl, rfl, rfl⟩
 
 /-! ### `construct` establishes `WellFormed` -/
 
@@ -824,10 +815,24 @@ theorem isValid_cases {v : List Char} (hv : isValid v = true) :
     · simp at hv
   · right; exact hv
 
-theorem construct_wf {s : List Char} {r : Raw} (h : construct s = .ok r) : WellFormed r = true := by
+/-- FIXED CODE: nothing but `InvalidVersion` escapes the constructor -/
+theorem construct_declared (s : List Char) (n : String) : construct s ≠ .error (.other n) := by
+  simp only [construct]
+  split
+  · simp
+  · split <;> simp
+
+theorem construct_fromString {s : List Char} {r : Raw} (h : construct s = .ok r) :
+    fromString (normalize s) = .ok r := by
   simp only [construct] at h
   split at h
   · simp at h
+  · split at h
+    · rename_i heq; injection h with h; rw [← h]; exact heq
+    · simp at h
+
+theorem construct_wf {s : List Char} {r : Raw} (h : construct s = .ok r) : WellFormed r = true := by
+  replace h := construct_fromString h
   · simp only [fromString] at h
     split at h
     · simp at h
